@@ -90,7 +90,7 @@ def r1(ctx: Ctx) -> None:
         ctx.check(ctx.program.lookup_method("EventABC", handler) is not None, tf, tf.node, f"EventABC declares {handler}", "method exists", "present" if ctx.program.lookup_method("EventABC", handler) else "missing")
     # no trigger without a row
     for name in ctx.program.cls("Simulator").methods:
-        if name.startswith("_trigger_event_"):
+        if name.startswith("_trigger_event_") and not _internal_trigger_helper(ctx, name):
             ok = any(name == f"_trigger_event_{r[0]}" for r in ROWS.values())
             ctx.check(ok, ctx.func(f"Simulator.{name}"), None, f"trigger {name} belongs to a table row", "known trigger", name)
 
@@ -224,6 +224,16 @@ def alloc_literal_any(p: Path, t: Term):
     from ..kit import alloc_literal
 
     return alloc_literal(p, t)
+
+
+def _internal_trigger_helper(ctx: Ctx, name: str) -> bool:
+    """a private method shared by the tabulated triggers (called by them and by nobody else): it is
+    analysed inside each of them, after inlining, not as a trigger of its own"""
+    if any(name == f"_trigger_event_{r[0]}" for r in ROWS.values()):
+        return False
+    sites = ctx.cg.sites_calling(f"Simulator.{name}")
+    rows = {f"Simulator._trigger_event_{r[0]}" for r in ROWS.values()}
+    return bool(sites) and all(s_.caller.qualname in rows for s_ in sites)
 
 
 def check_registration(ctx: Ctx) -> None:
@@ -380,7 +390,7 @@ def check_call_sites(ctx: Ctx, aspects) -> None:
                     ok = ok and [n for n, _ in seq] == ["_trigger_event_before_step_for_market", "order-phase", "_trigger_event_after_step_for_market", "clock"]
                 ctx.check(ok, h, sl.node, "per step: before-step hook for every market, order phase, after-step hook for every market, then the clock", "before(m)* ; orders ; after(m)* ; clock", str([n for n, _ in seq]))
     for name in (ctx.program.cls("Simulator").methods if "callers" in aspects else []):
-        if name.startswith("_trigger_event_"):
+        if name.startswith("_trigger_event_") and not _internal_trigger_helper(ctx, name):
             for s in ctx.cg.sites_calling(f"Simulator.{name}"):
                 ctx.check(caller_ok(ctx, s.caller, lambda g: g.cls is not None and g.cls.name == "SequentialRunner"), s.caller, s.node, f"caller of {name}", "SequentialRunner", s.caller.qualname)
 
